@@ -75,3 +75,41 @@ fn canary_server_hello_38_always_err() {
     core::mem::forget(r);
     assert!(e);
 }
+
+// ---- success paths with literal framing octets (all other bytes symbolic)
+/// ClientHello: version, random, empty session id, empty cookie, one cipher suite, one compression
+/// method, no extensions — every field recovered, buffer consumed
+#[kani::proof]
+#[kani::unwind(32)]
+fn c07_client_hello_fields_literal_42() {
+    let mut a: [u8; 42] = kani::any();
+    a[34] = 0; a[35] = 0; a[36] = 0; a[37] = 2; a[40] = 1;   // sid_len = 0, cookie_len = 0, cipher_suites_len = 2, compression_len = 1 (a[38..40] = suite)
+    let mut b = static_bytes_of(a);
+    let h = ClientHello::decode(&mut b).unwrap();
+    assert!(h.version.major == a[0] && h.version.minor == a[1]);
+    assert!(h.random.gmt_unix_time == u32::from_be_bytes([a[2], a[3], a[4], a[5]]) && h.random.random_bytes[..] == a[6..34]);
+    assert!(h.session_id.is_empty() && h.cookie.is_empty());
+    assert!(h.cipher_suites.len() == 1 && h.cipher_suites[0] == u16::from_be_bytes([a[38], a[39]]));
+    assert!(h.compression_methods.len() == 1 && h.compression_methods[0] == a[41] && h.extensions.is_empty() && b.is_empty());
+    core::mem::forget(h);
+}
+/// HandshakeMessage::decode header fields (RFC 6347 4.2.2): 24-bit length / fragment offset / fragment length
+#[kani::proof]
+#[kani::unwind(20)]
+fn c07_hs_msg_fields_14() {
+    let mut a: [u8; 14] = kani::any();
+    a[9] = 0; a[10] = 0; a[11] = 2;   // fragment_length = 2 (literal so that split_to is concrete)
+    let mut b = static_bytes_of(a);
+    match HandshakeMessage::decode(&mut b) {
+        Ok(Some(m)) => {
+            assert!(m.msg_type as u8 == a[0]);
+            assert!(m.total_length == u32::from_be_bytes([0, a[1], a[2], a[3]]) && m.message_seq == u16::from_be_bytes([a[4], a[5]]));
+            assert!(m.fragment_offset == u32::from_be_bytes([0, a[6], a[7], a[8]]) && m.fragment_length == 2);
+            assert!(m.body[..] == a[12..14] && b.is_empty());
+            kani::cover!(true);
+            core::mem::forget(m);
+        }
+        Ok(None) => assert!(false),
+        Err(_) => {}
+    }
+}
